@@ -120,12 +120,12 @@ def run(ck):
     lines = []
     nsched = 40 if thorough else 6
     for i, p in enumerate(progs + hand):
-        for k in range(nsched if p not in hand else nsched * 4):
+        for k in range(nsched if p not in hand else nsched * 25):
             lines.append("%s | random %d" % (p, ck.seed * 1000003 + i * 101 + k))
     tc.run_cases(ck, lines, "random", nontrivial)
     dfs = [hand[0], hand[2], hand[5], hand[10]] if not thorough else hand
     for j, p in enumerate(dfs):
-        tc.run_dfs(ck, p, 2 if thorough else 1, 30000 if thorough else 1500, "dfs%d" % j, nontrivial)
+        tc.run_dfs(ck, p, 2 if thorough else 1, 30000 if thorough else 3000, "dfs%d" % j, nontrivial)
 
 
 def replay(ck, path):
